@@ -5,6 +5,7 @@ import (
 	"encoding/json"
 	"errors"
 	"fmt"
+	"io"
 	"strings"
 	"time"
 
@@ -32,6 +33,7 @@ type c12Scenario struct {
 	Op     sess.Op      `json:"op"`
 	Mode   string       `json:"mode"`             // from into jsonwtr xmlwtr
 	Extend bool         `json:"extend,omitempty"` // target root (and every descendant) sits inside a pass-through nodeutil.Extend
+	Outer  string       `json:"outer,omitempty"`  // or inside nodeutil.Dump / nodeutil.Trace ("dump", "trace"): the library's logging pass-through wrappers
 	// Trigger installs a node.Trigger on the target's browser (the trigger table is
 	// consulted before the node on begin, after it on end); TrigFail makes its
 	// n-th call fail (-1: never). Triggers are not nodes: with a failing trigger
@@ -87,6 +89,12 @@ func c12Run(env *sess.Env, sc *c12Scenario, faults []simnode.Fault) c12Exec {
 				OnEnd:   func(t *node.Trigger, r node.NodeRequest) error { return call("OnEnd") },
 			})
 		}
+	}
+	switch sc.Outer {
+	case "dump":
+		ss.Outer = func(n interface{}) interface{} { return nodeutil.Dump(n.(node.Node), io.Discard) }
+	case "trace":
+		ss.Outer = func(n interface{}) interface{} { return nodeutil.Trace(n.(node.Node), io.Discard) }
 	}
 	if sc.Extend {
 		// the library's own delegating node between the editor and the recording
@@ -386,7 +394,11 @@ func c12Gen(r *kit.Rng) *c12Scenario {
 	if mode != "from" && mode != "into" {
 		op.Tree, op.List = nil, nil
 	}
-	return &c12Scenario{Schema: s, Store: sk, Init: init, Op: op, Mode: mode, Extend: mode == "from" && r.Chance(1, 4),
+	outer := ""
+	if mode == "from" && r.Chance(1, 6) {
+		outer = r.Pick([]string{"dump", "trace"})
+	}
+	return &c12Scenario{Schema: s, Store: sk, Init: init, Op: op, Mode: mode, Extend: outer == "" && mode == "from" && r.Chance(1, 4), Outer: outer,
 		Trigger: (mode == "from" || mode == "into") && r.Chance(1, 5)}
 }
 
@@ -430,6 +442,9 @@ func c12Explore(sc *c12Scenario, seed uint64, pairs int, r *kit.Rng) (out RunOut
 	out.Stats.Inc("mode:" + sc.Mode)
 	if sc.Extend {
 		out.Stats.Inc("target-inside-nodeutil.Extend")
+	}
+	if sc.Outer != "" {
+		out.Stats.Inc("target-inside-nodeutil." + sc.Outer)
 	}
 	out.Stats.Inc("store:" + store.KeyName(sc.Store))
 	out.Stats.Inc("op:" + sc.Op.Kind)
